@@ -2,7 +2,16 @@
 //! the join handle and the real exit path of ractor on a paused-clock current_thread runtime.
 //!
 //! stdin, one scenario per line:
-//!   wait cause=<c> sup=<0|1> kids=<n | k,k,...> park=<0|1> ; <op> ; <op> ; ...
+//!   wait cause=<c> sup=<0|1> kids=<n | k,k,...> park=<0|1> [tl=<0|1>] [via=<direct|children>] ; <op> ; ...
+//!     tl=1: the actor is a thread-local actor (`ThreadLocalActor::spawn*` on a `ThreadLocalActorSpawner`:
+//!         its task runs on the spawner's own OS thread and runtime); the driver synchronises on
+//!         what the operation must lead to (post_stop entered / the actor's task finished), then
+//!         runs the usual quiescence barrier on its own runtime
+//!     via=children: the cause (stop / drain) is delivered through the supervisor's
+//!         `stop_children()` / `drain_children()`
+//!     waiter kinds sc / dc: the SUPERVISOR's `stop_children_and_wait(None, tmo)` / `drain_children_and_wait(tmo)`
+//!         (a stop_and_wait / drain_and_wait on the actor run inside a JoinSet; errors and timeouts are swallowed:
+//!         always printed as ORet, lib/c06.py knows when the send part fails and no claim is made)
 //!     kids: linked children; a number = that many idle children, or a list of kinds
 //!         run (idle) | busy (Running, handler parked at a gate that is never opened)
 //!         | drain (busy like that, then drain() requested: status Draining)
@@ -47,6 +56,7 @@ use std::sync::{Arc, Mutex};
 use std::task::{Context, Poll, Wake, Waker};
 use std::time::Duration;
 
+use ractor::thread_local::{ThreadLocalActor, ThreadLocalActorSpawner};
 use ractor::{
     pg, registry, Actor, ActorCell, ActorProcessingErr, ActorRef, ActorRuntime, ActorStatus,
     RactorErr, SupervisionEvent,
@@ -81,6 +91,7 @@ enum Res {
 struct Flags {
     ps_in: AtomicU64,
     ps_out: AtomicU64,
+    h_in: AtomicU64,
 }
 
 struct PsGuard(Arc<Flags>);
@@ -109,6 +120,8 @@ enum Msg {
 }
 impl ractor::Message for Msg {}
 
+// (Default: also spawned through ractor's blanket `impl<T: Actor + Default> ThreadLocalActor for T`)
+#[derive(Default)]
 struct Main;
 impl Actor for Main {
     type Msg = Msg;
@@ -139,6 +152,7 @@ impl Actor for Main {
             Msg::Err => Err("handler failed".into()),
             Msg::Panic => panic!("handler panic"),
             Msg::Park => {
+                cfg.flags.h_in.fetch_add(1, Ordering::SeqCst);
                 cfg.handler_gate.pass().await;
                 Ok(())
             }
@@ -313,6 +327,14 @@ async fn settle() {
     tokio::time::sleep(Duration::from_nanos(1)).await;
 }
 
+/// Wait (without any clock) until another OS thread has brought the world to `cond`.
+async fn spin(cond: impl Fn() -> bool) {
+    while !cond() {
+        std::thread::yield_now();
+        tokio::task::yield_now().await;
+    }
+}
+
 fn kv<'a>(words: &'a [&'a str], key: &str) -> &'a str {
     for w in words {
         if let Some(v) = w.strip_prefix(key) {
@@ -375,6 +397,8 @@ async fn run_scenario(line: &str) -> String {
         Err(_) => kids_spec.split(',').map(|x| x.to_string()).collect(),
     };
     let park = kv(&head, "park") == "1";
+    let tl = head.iter().any(|w| *w == "tl=1");
+    let via_children = head.iter().any(|w| *w == "via=children");
 
     let name = format!("c06-{pid}-{sid}");
     let group = format!("c06g-{pid}-{sid}");
@@ -416,16 +440,34 @@ async fn run_scenario(line: &str) -> String {
     let instant = matches!(cause.as_str(), "prefail" | "prepanic" | "prekill" | "abortstart");
     // abort0: nothing may yield between the return of spawn and the abort (op `x`)
     let mut hold = cause == "abort0";
+    let spawner = tl.then(ThreadLocalActorSpawner::new);
     let (main_cell, join): (ActorCell, AnyJoin) = if instant {
         // pre_start failures: the cell must exist before pre_start fails so that waiters can
-        // register; spawn_instant returns it immediately (no supervisor in this mode)
-        let (r, h) = ActorRuntime::<Main>::spawn_instant(Some(name.clone()), Main, cfg).expect("spawn_instant");
+        // register; spawn_instant / spawn_linked_instant return it immediately
+        let (r, h) = match (&spawner, with_sup) {
+            (Some(sp), false) => <Main as ThreadLocalActor>::spawn_instant(Some(name.clone()), cfg, sp.clone()).expect("spawn_instant"),
+            (Some(sp), true) => {
+                <Main as ThreadLocalActor>::spawn_linked_instant(Some(name.clone()), cfg, sup_ref.get_cell(), sp.clone())
+                    .expect("spawn_linked_instant")
+            }
+            (None, false) => ActorRuntime::<Main>::spawn_instant(Some(name.clone()), Main, cfg).expect("spawn_instant"),
+            (None, true) => ActorRuntime::<Main>::spawn_linked_instant(Some(name.clone()), Main, cfg, sup_ref.get_cell())
+                .expect("spawn_linked_instant"),
+        };
         (r.get_cell(), AnyJoin::Instant(h))
     } else if with_sup {
-        let (r, h) = Actor::spawn_linked(Some(name.clone()), Main, cfg, sup_ref.get_cell()).await.expect("spawn");
+        let (r, h) = match &spawner {
+            Some(sp) => <Main as ThreadLocalActor>::spawn_linked(Some(name.clone()), cfg, sup_ref.get_cell(), sp.clone())
+                .await
+                .expect("spawn"),
+            None => Actor::spawn_linked(Some(name.clone()), Main, cfg, sup_ref.get_cell()).await.expect("spawn"),
+        };
         (r.get_cell(), AnyJoin::Plain(h))
     } else {
-        let (r, h) = Actor::spawn(Some(name.clone()), Main, cfg).await.expect("spawn");
+        let (r, h) = match &spawner {
+            Some(sp) => <Main as ThreadLocalActor>::spawn(Some(name.clone()), cfg, sp.clone()).await.expect("spawn"),
+            None => Actor::spawn(Some(name.clone()), Main, cfg).await.expect("spawn"),
+        };
         (r.get_cell(), AnyJoin::Plain(h))
     };
     let abort_handle = match &join {
@@ -435,6 +477,13 @@ async fn run_scenario(line: &str) -> String {
     let mut join = Some(join);
     if !hold {
         settle().await;
+    }
+    let start_parked = matches!(cause.as_str(), "prefail" | "prepanic" | "prekill" | "abortstart" | "postfail" | "postkill");
+    if tl {
+        // the other thread: wait until the actor is where the scenario starts
+        let want = if start_parked { ActorStatus::Starting } else { ActorStatus::Running };
+        let c = main_cell.clone();
+        spin(move || c.get_status() == want).await;
     }
     pg::monitor(group.clone(), sup_ref.get_cell());
     pg::join(group.clone(), vec![main_cell.clone()]);
@@ -466,10 +515,17 @@ async fn run_scenario(line: &str) -> String {
     if cause == "killhandler" || cause == "aborthandler" {
         let r: ActorRef<Msg> = main_cell.clone().into();
         r.cast(Msg::Park).expect("park");
+        if tl {
+            let f = flags.clone();
+            spin(move || f.h_in.load(Ordering::SeqCst) > 0).await;
+        }
     }
     if !hold {
         settle().await;
     }
+    // thread-local actors: what an operation must lead to before the barrier means anything
+    let parkable = matches!(cause.as_str(), "stop" | "drain" | "pserr" | "pspanic" | "stopkill" | "abortps");
+    let mut phase = 0; // 0 before the cause, 1 post_stop parked, 2 exit complete
 
     let ctx = Arc::new(Ctx { cell: main_cell.clone(), name: name.clone(), group: group.clone(), flags: flags.clone() });
     // (waiter, outcome, snapshot) in completion order
@@ -483,6 +539,8 @@ async fn run_scenario(line: &str) -> String {
         if w.is_empty() {
             continue;
         }
+        #[allow(unused_assignments)]
+        let mut expect = 0u8; // 1 = like the cause, 2 = the exit completes, 3 = post_stop gets parked
         match w[0] {
             "w" => {
                 let id: u64 = w[1].parse().unwrap();
@@ -521,6 +579,12 @@ async fn run_scenario(line: &str) -> String {
                     continue;
                 }
                 let jh = if kind == "join" { join.take() } else { None };
+                let supc = sup_ref.get_cell();
+                match w.get(4).copied() {
+                    Some("c") => expect = 1,
+                    Some("r") => expect = 2,
+                    _ => {}
+                }
                 let task = tokio::spawn(async move {
                     let cell = ctx2.cell.clone();
                     let out: &'static str = match kind.as_str() {
@@ -528,7 +592,7 @@ async fn run_scenario(line: &str) -> String {
                             Ok(()) => "ORet",
                             Err(_) => "OTimeout",
                         },
-                        "stopw" => match cell.stop_and_wait(None, tmo).await {
+                        "stopw" => match cell.stop_and_wait((id % 2 == 1).then(|| "bye".to_string()), tmo).await {
                             Ok(()) => "ORet",
                             Err(RactorErr::Timeout) => "OTimeout",
                             Err(_) => "OErr",
@@ -543,6 +607,15 @@ async fn run_scenario(line: &str) -> String {
                             Err(RactorErr::Timeout) => "OTimeout",
                             Err(_) => "OErr",
                         },
+                        // the supervisor's helpers: a JoinSet of stop_and_wait / drain_and_wait on its children
+                        "sc" => {
+                            supc.stop_children_and_wait(None, tmo).await;
+                            "ORet"
+                        }
+                        "dc" => {
+                            supc.drain_children_and_wait(tmo).await;
+                            "ORet"
+                        }
                         "join" => {
                             match jh.expect("join handle already taken") {
                                 AnyJoin::Plain(h) => {
@@ -565,6 +638,13 @@ async fn run_scenario(line: &str) -> String {
                 });
                 started.push((id, task));
             }
+            "x" if via_children => {
+                expect = 1;
+                match cause.as_str() {
+                    "drain" => sup_ref.get_cell().drain_children(),
+                    _ => sup_ref.get_cell().stop_children(None),
+                }
+            }
             "x" => match cause.as_str() {
                 "stop" | "stopkill" | "pserr" | "pspanic" | "abortps" => main_cell.stop(None),
                 "abort0" | "abortidle" | "aborthandler" | "abortstart" => {
@@ -586,15 +666,49 @@ async fn run_scenario(line: &str) -> String {
                 "prefail" | "prepanic" | "postfail" => start_gate.open(),
                 o => panic!("bad cause {o}"),
             },
-            "g" => ps_gate.open(),
-            "k" => main_cell.kill(),
-            "ab" => abort_handle.abort(),
+            "g" => {
+                expect = 2;
+                ps_gate.open()
+            }
+            "k" => {
+                if phase == 1 && cause == "stopkill" {
+                    expect = 2;
+                }
+                main_cell.kill()
+            }
+            "ab" => {
+                expect = 2;
+                abort_handle.abort()
+            }
             "s" => main_cell.stop(None),
             "d" => {
                 let _ = main_cell.drain();
             }
             "a" => tokio::time::advance(Duration::from_millis(1000)).await,
             o => panic!("bad op {o}"),
+        }
+        if w[0] == "x" {
+            expect = 1;
+        }
+        if expect == 1 {
+            expect = if parkable && park { 3 } else { 2 };
+        }
+        if expect == 3 {
+            phase = 1;
+        } else if expect == 2 {
+            phase = 2;
+        }
+        if tl {
+            // the actor lives on another OS thread: first let the waiter/driver side issue its calls,
+            // then wait for what the operation must lead to, then the usual barrier
+            settle().await;
+            if expect == 3 {
+                let f = flags.clone();
+                spin(move || f.ps_in.load(Ordering::SeqCst) > 0).await;
+            } else if expect == 2 {
+                let h = abort_handle.clone();
+                spin(move || h.is_finished()).await;
+            }
         }
         if !hold {
             settle().await;
